@@ -2,7 +2,8 @@
 EXTENDS Collect, Json
 (***************************************************************************)
 (* Model-checking wrapper for Collect.tla (C16).                           *)
-(*   Collect_exh.cfg   n <= 3, overlapping call, safety + NoLeak (quick)   *)
+(*   Collect_exh.cfg   n <= 3, overlapping call, safety + NoLeak + Emit     *)
+(*                     (quick tier: decides and generates in one run)      *)
 (*   Collect_deep.cfg  n <= 4, overlapping call, safety + NoLeak           *)
 (*   Collect_gen.cfg   n <= 4: every reachable final observable outcome    *)
 (*                     of every scenario is printed once (Emit); grouped   *)
